@@ -51,6 +51,9 @@ def celltok(case, i, j):
         return "R%dC%d" % (i + 1, j + 1)
     if case.get("nearnull") and (i + 2 * j) % 3 == 0:
         return NEAR_NULL[(i * 7 + j) % len(NEAR_NULL)]
+    if case.get("sci") and i % 2 == 1 and j >= 1:
+        # the same coordinates in exponent notation with a negative exponent (every other line: a hyphen is not on every line)
+        return "%d.%03d%s-0%d" % (i + 1, j + 1, "Ee"[j % 2], 1 + (i + j) % 3)
     return cellv(i, j, bool(case.get("neg")))
 
 
@@ -82,6 +85,13 @@ def grid(tier):
                     for neg in (False, True):
                         yield {"d": d, "c": c, "r": r, "engine": "numpy" if (d or 0) % 2 else "normal", "wrap": None, "noise": None, "after": r == 3,
                                "dlm": dlm, "neg": neg}
+    for c in (2, 3, 5):                      # cells in exponent notation with a negative exponent, on every engine route
+        for r in (2, 3, 5, 24):
+            for d in (None, c, c + 1):
+                for engine in ("numpy", "normal"):
+                    yield {"d": d, "c": c, "r": r, "engine": engine, "wrap": None, "noise": None, "after": False, "sci": True}
+            yield {"d": c, "c": c, "r": r, "engine": "normal", "wrap": 2, "noise": None, "after": False, "sci": True}
+            yield {"d": c, "c": c, "r": r, "engine": "numpy", "wrap": None, "noise": None, "after": False, "sci": True, "dlm": "COMMA"}
     for d in (2, 3, 4, 6):                   # curves named with bare numbers that are positions of other curves
         for c in (d - 1, d, d + 1):
             for engine in ("numpy", "normal"):
